@@ -206,6 +206,15 @@ def str_class(s: str) -> str:
 # ---------------------------------------------------------------------------
 # snapshots (JSON-able normal forms) and comparison
 # ---------------------------------------------------------------------------
+_PATHS: list = []  # [(real prefix, token)] of the running case: snapshots are run-independent
+
+
+def _npath(text: str) -> str:
+    for real, token in _PATHS:
+        text = text.replace(real, token)
+    return text
+
+
 def nv(v, rev):
     """Normal form of one parameter value. rev: uid-string -> fixture handle."""
     from geoh5py import Workspace
@@ -228,7 +237,7 @@ def nv(v, rev):
             return {"k": "num", "v": str(int(v))}
         return {"k": "num", "v": repr(v)}
     if isinstance(v, str):
-        out = {"k": "str", "v": v}
+        out = {"k": "str", "v": _npath(v)}
         if v.strip("{}") in rev:
             out["h"] = rev[v.strip("{}")]
         return out
@@ -238,9 +247,9 @@ def nv(v, rev):
         return {"k": "entity", "cls": type(v).__name__, "v": rev.get(str(v.uid), "?"), "name": v.name}
     if isinstance(v, Workspace):
         h5 = v.h5file
-        return {"k": "workspace", "v": str(Path(h5).resolve()) if isinstance(h5, (str, Path)) else "[in-memory]"}
+        return {"k": "workspace", "v": _npath(str(Path(h5).resolve())) if isinstance(h5, (str, Path)) else "[in-memory]"}
     if isinstance(v, Path):
-        return {"k": "path", "v": str(v)}
+        return {"k": "path", "v": _npath(str(v))}
     if isinstance(v, (list, tuple)):
         return {"k": "list", "v": [nv(x, rev) for x in v]}
     if isinstance(v, dict):
@@ -384,6 +393,12 @@ def execute(case) -> dict:
     world.reset("asc")
     fxpath, handles, other = fixture(case.get("fx", "small"))
     cdir = case_dir()
+    _PATHS[:] = [
+        (str(cdir.resolve()), "<case>"),
+        (str(cdir), "<case>"),
+        (str(Path(fxpath).parent.resolve()), "<fixture>"),
+        (str(Path(fxpath).parent), "<fixture>"),
+    ]
     cwd = os.getcwd()
     os.chdir(cdir)
     viol = []
@@ -618,7 +633,7 @@ def equivalent(b, a, tmpl, key) -> bool:
             return True
     # workspace paths re-opened as workspaces
     if key in WORKSPACE_KEYS and ka == "workspace" and kb in ("str", "path"):
-        return str(Path(b["v"]).resolve()) == a["v"]
+        return b["v"] == a["v"]  # both already resolved + tokenised by nv
     return False
 
 
